@@ -28,6 +28,15 @@ var resolutions = []time.Duration{time.Second, 5 * time.Second, 7 * time.Second,
 
 var base = time.Date(2020, 3, 1, 12, 0, 0, 0, time.UTC)
 
+// rawOrNil keeps a model answer printable: an empty or invalid raw message (the model answered
+// with an error) must not make the whole result unwritable.
+func rawOrNil(b json.RawMessage) interface{} {
+	if len(b) == 0 || !json.Valid(b) {
+		return nil
+	}
+	return b
+}
+
 func tstr(t time.Time) string {
 	if t.IsZero() {
 		return "zero"
@@ -359,7 +368,7 @@ func caseAcc(ctx *hk.RunCtx, r *hk.Rng, idx uint64, n *gen.Node, e expr.Expr, ej
 	json.Unmarshal(out, &mo)
 	hasUnary := n.HasKind("unary")
 	if !sameJSON(implCells, mo.Cells) {
-		ctx.Res.Disagree(hk.Disagreement{Kind: "model-vs-impl", Case: req, Impl: implCells, Model: json.RawMessage(mo.Cells), Detail: "acc cells", Index: idx})
+		ctx.Res.Disagree(hk.Disagreement{Kind: "model-vs-impl", Case: req, Impl: implCells, Model: rawOrNil(mo.Cells), Detail: "acc cells", Index: idx})
 	} else if !hasUnary {
 		if eq, ok := cmpVal(getVal(e, all), mo.Val, valTol(n)); ok && !eq {
 			ctx.Res.Disagree(hk.Disagreement{Kind: "model-vs-impl", Case: req, Impl: getVal(e, all), Model: mo.Val, Detail: "acc value", Index: idx})
@@ -420,7 +429,7 @@ func caseAcc(ctx *hk.RunCtx, r *hk.Rng, idx uint64, n *gen.Node, e expr.Expr, ej
 		ic = []interface{}{}
 	}
 	if !sameJSON(ic, mo.Cells) {
-		ctx.Res.Disagree(hk.Disagreement{Kind: "model-vs-impl", Case: req2, Impl: ic, Model: json.RawMessage(mo.Cells), Detail: "exmerge cells", Index: idx})
+		ctx.Res.Disagree(hk.Disagreement{Kind: "model-vs-impl", Case: req2, Impl: ic, Model: rawOrNil(mo.Cells), Detail: "exmerge cells", Index: idx})
 	}
 	return nil
 }
@@ -650,7 +659,7 @@ func caseRound(ctx *hk.RunCtx, r *hk.Rng, idx uint64, resn time.Duration) error 
 		return err
 	}
 	if !sameJSON(impl, mo) {
-		ctx.Res.Disagree(hk.Disagreement{Kind: "model-vs-impl", Case: req, Impl: impl, Model: json.RawMessage(mo), Detail: "rounding", Index: idx})
+		ctx.Res.Disagree(hk.Disagreement{Kind: "model-vs-impl", Case: req, Impl: impl, Model: rawOrNil(mo), Detail: "rounding", Index: idx})
 	}
 	return nil
 }
